@@ -72,7 +72,8 @@ def admissible(task, entry, base):
         ri, ei = base["ref"][0], base["est"][0]
         if entry in ("detection", "deviation"):
             return True
-        return bool(ri) and bool(ei) and ri[-1][1] == ei[-1][1]
+        # "end together": as the validator defines it (np.allclose: |a - b| <= 1e-8 + 1e-5 |b|)
+        return bool(ri) and bool(ei) and abs(T.F(ri[-1][1]) - T.F(ei[-1][1])) <= Fr(1, 10 ** 8) + Fr(1, 10 ** 5) * abs(T.F(ei[-1][1]))
     return True
 
 
@@ -147,6 +148,21 @@ def gen_valid(task):
             base.pop("transform", None)
             if task in ("melody", "multipitch"):
                 base = vary_timebase(random.Random(rng.randint(0, 10 ** 9)), base)
+            if task == "melody" and rng.random() < 0.03:
+                # empty sides: the frame measures define a score (0, with a warning) for empty series
+                side = rng.choice(["ref", "est", "both"])
+                base = dict(base)
+                if side in ("ref", "both"):
+                    base["ref"] = [[], []]
+                if side in ("est", "both"):
+                    base["est"] = [[], []]
+            if task == "segment" and rng.random() < 0.03 and base["ref"][0] and base["est"][0]:
+                # the two annotations end together up to the validator's own tolerance (np.allclose) but on
+                # different sides of a frame boundary
+                base = dict(base)
+                ei = [list(r) for r in base["est"][0]]
+                ei[-1][1] = T.S(T.F(ei[-1][1]) - Fr(1, 20000))
+                base["est"] = [ei, base["est"][1]]
             for e in entries:
                 if admissible(task, e, base):
                     yield {"task": task, "entry": e, "fault": None, "base": base}
